@@ -160,12 +160,18 @@ def main():
         rest = [u for u in units if u not in keep]
         units = keep + rnd.sample(rest, max(0, 70 - len(keep)))
     ck.extra['templates'] = len(units)
+    # member order in lists far beyond the symbolic bound (65..130 members, three rotations): concrete, shared with C08
+    units.append(('@wide', None, None))
     ck.run_units(units, run_unit)
     ck.finish('original vs permuted rule texts, loaded natively, executed as real solver MIR over one symbolic document')
 
 
 def run_unit(ck, unit):
     name, yaml, vs = unit
+    if name == '@wide':
+        import C08
+        C08.wide_unit(ck)
+        return
     quick = ck.tier == 'quick'
     br = ck.bridge()
     base = br.call(cmd='load', yaml=yaml, opts=None)
